@@ -149,6 +149,11 @@ def run(ctx):
     seen_texts = set()
     for i in range(n):
         texts = {slot: gen_text(rng) for slot in SLOTS}
+        if i < 24:
+            # an unbroken word longer than a line with a backslash at every offset around the wrap column: whatever
+            # cuts the word must not cut an escape in two
+            texts['obj.description'] = 'x' * (66 + i) + '\\' + 'n' + 'y' * 20 + ' tail'
+            texts['oi.description'] = 'w' * (66 + i) + '\\\\' + 'z' * 30
         gen_on = (i % 4) != 3
         identity = (i % 2) == 1
         flt = (lambda sym, t: t) if identity else None
